@@ -322,6 +322,88 @@ def oracle(T, tree, out_off, out_on, ah):
     return None
 
 
+# ---------------------------------------------------------------- reuse histories
+
+def sentinel_state(O):
+    w = O.WILDCARD_WORD
+    return (type(w).__name__, w.value, w.head, w.tail, w.pos, w.size)
+
+
+def edit_in_place(T, b, r, tree):
+    """edit the tree object in place; returns a description of the edit (or None if nothing applies)"""
+    nodes = [n for _, n in gentree.all_nodes(tree)]
+    ops = [n for n in nodes if isinstance(n, T.BaseOperation)]
+    ranges = [n for n in nodes if type(n) is T.Range]
+    if ops and (not ranges or r.random() < 0.5):
+        n = r.choice(ops)
+        new = b.operand(r.choice(FULL))
+        n.children = list(n.children) + [new]
+        return "operand %s appended to a %s" % (gentree.describe(new), type(n).__name__)
+    if ranges:
+        n = r.choice(ranges)
+        new = r.choice([b.num, b.star, b.lookalike])()
+        side = r.choice(["low", "high"])
+        setattr(n, side, new)
+        return "%s bound of a range replaced by %s" % (side, gentree.describe(new))
+    return None
+
+
+def reuse_histories(T, O, b, r, res, count, dist):
+    """one transformer instance per (merge, add_head) applied to several trees in a row and to the same tree
+    object again after an in-place edit: every result must be what a fresh instance gives for the tree as it
+    is at that moment, the existing oracle must hold, and the class-level WILDCARD_WORD must stay intact"""
+    sentinel0 = sentinel_state(O)
+    ops_classes = [T.AndOperation, T.AndOperation, T.OrOperation, T.UnknownOperation]
+    calls = 0
+    for _ in range(count):
+        ah = r.choice(ADD_HEADS)
+        inst = {m: O(merge_ranges=m, add_head=ah) for m in (False, True)}
+        history = []
+        tree = None
+        for _step in range(r.randrange(2, 7)):
+            edit = None
+            if tree is not None and r.random() < 0.45:
+                edit = edit_in_place(T, b, r, tree)
+            if edit is None:
+                k = r.choice(ops_classes)
+                tree = b.wrap(b.lay(k(*b.operands(r.randrange(0, 6), FULL + ["odd"]))))
+                edit = "new tree"
+            try:
+                before = lib.g_item(tree)
+            except lib.Unmodelled:
+                tree = None
+                continue
+            history.append({"step": edit, "tree": gentree.describe(tree)[:600]})
+            payload = {"add_head": ah, "history": list(history)}
+            outs = {}
+            for m in (False, True):
+                try:
+                    out = inst[m](tree)
+                    fresh = O(merge_ranges=m, add_head=ah)(tree)
+                except Exception as e:
+                    res.failures.append((dict(payload, merge=m, why="exception %r on a reused instance" % e), None))
+                    continue
+                calls += 1
+                outs[m] = out
+                if lib.g_item(out) != lib.g_item(fresh):
+                    res.failures.append((dict(payload, merge=m, reused=str(out)[:300], fresh=str(fresh)[:300],
+                                              why="a reused transformer instance gives another result than a "
+                                                  "fresh one"), None))
+                if sentinel_state(O) != sentinel0:
+                    res.failures.append((dict(payload, merge=m, sentinel=list(sentinel_state(O)),
+                                              why="OpenRangeTransformer.WILDCARD_WORD was modified"), None))
+                    O.WILDCARD_WORD = T.Word("*")     # repair so that later cases are judged on their own
+                if lib.g_item(tree) != before:
+                    res.failures.append((dict(payload, merge=m, why="the input tree was modified"), None))
+            if len(outs) == 2:
+                why = oracle(T, tree, outs[False], outs[True], ah)
+                if why:
+                    res.failures.append((dict(payload, why=why, merge_off=str(outs[False])[:300],
+                                              merge_on=str(outs[True])[:300]), None))
+    dist["reuse"] = {"histories": count, "calls_on_reused_instances": calls}
+    return calls
+
+
 # ---------------------------------------------------------------- correspondence
 
 def correspond(model_ok, res):
@@ -389,6 +471,7 @@ def correspond(model_ok, res):
 
     cases, payloads = [], []
     seen = set()
+    sentinel0 = sentinel_state(OpenRangeTransformer)
     dist = {"tag": {}, "merges_performed": {}, "root_class": {}, "operand_count": {}}
     for tree, tag in trees:
         try:
@@ -406,6 +489,11 @@ def correspond(model_ok, res):
                 res.failures.append(({"tree": desc[:1500], "merge": merge, "add_head": ah,
                                       "why": "exception %r" % e}, None))
                 out = None
+            if sentinel_state(OpenRangeTransformer) != sentinel0:
+                res.failures.append(({"tree": desc[:1500], "merge": merge, "add_head": ah,
+                                      "sentinel": list(sentinel_state(OpenRangeTransformer)),
+                                      "why": "OpenRangeTransformer.WILDCARD_WORD was modified"}, None))
+                OpenRangeTransformer.WILDCARD_WORD = T.Word("*")
             if lib.g_item(tree) != before:
                 res.failures.append(({"tree": desc[:1500], "merge": merge, "add_head": ah,
                                       "why": "the input tree was modified"}, None))
@@ -438,6 +526,10 @@ def correspond(model_ok, res):
         has = any(isinstance(n, (T.Range, T.OpenRange)) for _, n in gentree.all_nodes(tree))
         if has and desc not in seen:
             seen.add(desc)
+    reuse_calls = reuse_histories(T, OpenRangeTransformer, b, r, res, 80 if quick else 800, dist)
+    res.notes.append("%d calls on reused transformer instances (histories of 2-6 trees, in-place edits) compared "
+                     "with fresh instances and judged by the oracle; WILDCARD_WORD checked after every call"
+                     % reuse_calls)
     res.cases = len(cases)
     res.nontrivial = len(seen)
     res.rule = ("operand lists over {low-bounded, high-bounded, closed, [* TO *], non-range, boosted range, fielded "
